@@ -69,6 +69,37 @@ def fg_update(pid, which):
     return c
 
 
+def replay_fg_update(which):
+    def replay(obligation, model, meta):
+        """native run of the real Model.f_update / g_update on a stub model: element i of the generated result reaches variable #i
+        (added in place for in-place equations, assigned otherwise), whatever the connection status of the devices"""
+        from collections import OrderedDict
+        from types import SimpleNamespace
+        import numpy as np
+        from andes.core.model.model import Model
+        from contracts.packutil import Stub
+        for u in ([1.0, 1.0], [0.0, 1.0], [0.0, 0.0]):
+            e0 = [np.array([0.5, 0.25]), np.array([7.0, 7.0]), np.array([-1.0, 2.0])]
+            vars_ = OrderedDict((n, SimpleNamespace(e=e.copy(), e_inplace=ip)) for n, e, ip in zip('abc', e0, (True, False, True)))
+            keep = [v.e for v in vars_.values()]
+            ret = (np.array([1.0, 2.0]), np.array([3.0, 4.0]), np.array([5.0, 6.0]))
+            cache = SimpleNamespace(states_and_ext=vars_, algebs_and_ext=vars_)
+            stub = Stub(_cls=Model, n=2, u=SimpleNamespace(v=np.array(u)), class_name='M', cache=cache,
+                        calls=SimpleNamespace(**{which: (lambda *a: ret)}), flags=SimpleNamespace(f_num=False, g_num=False), blocks={},
+                        get_inputs=lambda *a, **k: {})
+            setattr(stub, which + '_args', [])
+            getattr(Model, which + '_update')(stub)
+            for i, (v, before) in enumerate(zip(vars_.values(), e0)):
+                want = before + ret[i] if v.e_inplace else ret[i]
+                if v.e is not keep[i] or not np.array_equal(v.e, want):
+                    return {'confirmed': True, 'inputs': {'u': u, 'variable #': i, 'e_inplace': v.e_inplace, 'e before': before.tolist(),
+                                                          'generated result': ret[i].tolist()},
+                            'observed': 'e after %s_update = %r, expected %r' % (which, np.asarray(v.e).tolist(), want.tolist()),
+                            'native_cmd': 'Model.%s_update(stub)' % which}
+        return {'confirmed': False, 'tried': 3}
+    return replay
+
+
 def refresh_inputs_arg(pid):
     """Model.refresh_inputs_arg: argument k of each generated function is the input array stored under the k-th declared
     argument name (lookup by name, order preserved)."""
@@ -202,7 +233,7 @@ def add_obligations(pack, ss, tier, pid='C02'):
     pack.trust('generated functions are called with the argument list built by refresh_inputs_arg (star-call)',
                'Model.get_md5 hashes the declared strings of the model (not decided: that it covers every string the generator '
                'depends on)')
-    run_contracts(pack, [(fg_update(pid, 'f'),), (fg_update(pid, 'g'),), (refresh_inputs_arg(pid),), (find_stale(pid),), (undill(pid),), (generate_pycode_tail(pid),)])
+    run_contracts(pack, [(fg_update(pid, 'f'), None, replay_fg_update('f')), (fg_update(pid, 'g'), None, replay_fg_update('g')), (refresh_inputs_arg(pid),), (find_stale(pid),), (undill(pid),), (generate_pycode_tail(pid),)])
 
 
 FSP = 'andes/core/symprocessor.py'
